@@ -470,23 +470,36 @@ def canonicalise(tree):
         neg = not neg
       return t, neg
 
+    _NEGATIVE = (ast.NotEq, ast.IsNot, ast.NotIn, ast.GtE, ast.LtE)
+
+    def _positive(self, t):
+      """(test, swapped?): a two-armed conditional never tests with `not`,
+      nor with a single != / is not / not in / >= / <= comparison (the
+      arms are swapped and the operator negated instead)"""
+      t, neg = self._peel(t)
+      if isinstance(t, ast.Compare) and len(t.ops) == 1 and isinstance(
+          t.ops[0], self._NEGATIVE):
+        t.ops = [_NEG[type(t.ops[0])]()]
+        neg = not neg
+      return t, neg
+
     def visit_If(self, n):
       # the arms are swapped BEFORE negations are folded into comparison
       # operators, so that `if not x in s: A else: B` and
       # `if x in s: B else: A` get the same normal form
       if n.orelse and not (len(n.orelse) == 1 and isinstance(
           n.orelse[0], ast.If)):
-        t, neg = self._peel(n.test)
+        t, neg = self._positive(n.test)
+        n.test = t
         if neg:
-          n.test = t
           n.body, n.orelse = n.orelse, n.body
       self.generic_visit(n)
       return n
 
     def visit_IfExp(self, n):
-      t, neg = self._peel(n.test)
+      t, neg = self._positive(n.test)
+      n.test = t
       if neg:
-        n.test = t
         n.body, n.orelse = n.orelse, n.body
       self.generic_visit(n)
       return n
@@ -534,6 +547,8 @@ class Module(object):
     self.relpath = relpath
     self.src = src
     self.tree = canonicalise(ast.parse(src, filename=path))
+    from . import inline
+    self.tree = inline.normalise_module(name, self.tree)
     self.aliases = {}     # local name -> ('mod', name) | ('ext', root) | ('sym', mod, name)
     self.functions = {}
     self.classes = {}
